@@ -132,7 +132,8 @@ class Series:
         if len(new) != len(self._v): raise ValueError('Length mismatch')
         self._i = new
     @property
-    def values(self): return Arr(self._v)
+    def values(self):
+        a = Arr(self._v); a.nonbool = getattr(self, '_nonbool', False); return a
     @property
     def shape(self): return (len(self._v),)
     @property
@@ -280,10 +281,13 @@ class _Key:
     def __lt__(self, o): return True if self.v < o.v else False
 
 class Arr2:
-    """2-d array stand-in (rows x columns), only what _drop_repeats needs"""
-    def __init__(self, rows): self._r = [list(r) for r in rows]
+    """2-d array stand-in (rows x columns)"""
+    def __init__(self, rows, ncols = None): self._r = [list(r) for r in rows]; self._m = ncols
+    dtype = 'float64'
+    def copy(self): return Arr2(self._r, self._m)
+    def __iter__(self): return iter(Arr(r) for r in self._r)
     @property
-    def shape(self): return (len(self._r), len(self._r[0]) if self._r else 0)
+    def shape(self): return (len(self._r), len(self._r[0]) if self._r else (self._m or 0))
     def __len__(self): return len(self._r)
     def __eq__(self, o):
         if isinstance(o, Arr2): return Arr2([[a == b for a, b in zip(r, q)] for r, q in zip(self._r, o._r)])
@@ -305,6 +309,9 @@ class Columns(list):
 class _FILoc:
     def __init__(self, f): self.f = f
     def __getitem__(self, i):
+        if isinstance(i, tuple) and len(i) == 2 and i[0] == slice(None) and isinstance(i[1], int):
+            col = self.f._cols[i[1]]; return Series(self.f._c[col], Index(self.f._i._l, self.f._i.name), col)
+        if isinstance(i, tuple): raise Unsupported('minipd: iloc[%r]' % (i,))
         if isinstance(i, slice): return self.f._take(list(range(len(self.f)))[i])
         n = len(self.f)
         if i < -n or i >= n: raise IndexError('single positional indexer is out-of-bounds')
@@ -323,6 +330,10 @@ class DataFrame:
         elif isinstance(data, dict):
             self._cols = Columns(data.keys()); self._c = {k: list(v) for k, v in data.items()}
             n = len(next(iter(self._c.values()))) if self._c else 0
+            self._i = _mk_index(index if index is not None else range(n))
+        elif isinstance(data, Arr2):
+            n, m = data.shape
+            self._cols = Columns(columns if columns is not None else range(m)); self._c = {c: [data._r[i][j] for i in range(n)] for j, c in enumerate(self._cols)}
             self._i = _mk_index(index if index is not None else range(n))
         elif data is None:
             self._cols = Columns(columns or []); self._c = {c: [] for c in self._cols}; self._i = _mk_index(index or [])
@@ -344,18 +355,24 @@ class DataFrame:
     @property
     def iloc(self): return _FILoc(self)
     @property
-    def values(self): return Arr2([[self._c[c][i] for c in self._cols] for i in range(len(self))])
+    def values(self): return Arr2([[self._c[c][i] for c in self._cols] for i in range(len(self))], len(self._cols))
     def __contains__(self, c): return c in self._cols
     def copy(self):
         f = DataFrame(); f._cols = Columns(self._cols); f._c = {c: list(v) for c, v in self._c.items()}; f._i = Index(self._i._l, self._i.name); return f
     def _take(self, pos):
         f = DataFrame(); f._cols = Columns(self._cols); f._c = {c: [self._c[c][i] for i in pos] for c in self._cols}; f._i = Index([self._i._l[i] for i in pos], self._i.name); return f
     def __getitem__(self, item):
-        if isinstance(item, str):
+        if isinstance(item, slice):
+            probe = Series(list(range(len(self))), Index(self._i._l))[item]              # same label / positional slice rules as a Series
+            return self._take(list(probe._v))
+        if isinstance(item, str) or (isinstance(item, int) and item in self._c):
             if item not in self._c: raise KeyError(item)
             return Series(self._c[item], Index(self._i._l, self._i.name), item)
+        nonbool = getattr(item, 'nonbool', False)
         if isinstance(item, Series): item = list(item._v)
         if isinstance(item, (Arr, Mask)): item = list(item)
+        if isinstance(item, list) and len(item) == 0 and nonbool:
+            f = self.copy(); f._cols = Columns([]); f._c = {}; return f            # an empty non-boolean key is read by pandas as an empty list of columns
         if isinstance(item, list) and len(item) == len(self) and all(isinstance(k, (bool, SymBool)) for k in item):
             return self._take([i for i, k in enumerate(item) if k])                # forks on symbolic masks
         if isinstance(item, list) and all(isinstance(k, str) for k in item):
@@ -374,10 +391,30 @@ class DataFrame:
         for c in cols:
             if c not in self._c: raise KeyError(c)
         f = self.copy(); f._cols = Columns([c for c in self._cols if c not in cols]); f._c = {c: f._c[c] for c in f._cols}; return f
-    def ffill(self, **kw):
+    def _percol(self, fn, axis):
+        if axis not in (0, None, 'index'): raise Unsupported('minipd: axis=%r' % (axis,))
         f = self.copy()
-        for c in f._cols: f._c[c] = Series(f._c[c], list(range(len(self)))).ffill()._v
+        for c in f._cols: f._c[c] = fn(Series(f._c[c], list(range(len(self)))))._v
         return f
+    def ffill(self, axis = 0, limit = None, **kw): return self._percol(lambda s: s.ffill(limit = limit), axis)
+    def bfill(self, axis = 0, limit = None, **kw): return self._percol(lambda s: s.bfill(limit = limit), axis)
+    def fillna(self, value = None, method = None, axis = 0, limit = None, **kw):
+        if method is not None: raise Unsupported('minipd: fillna(method=)')
+        return self._percol(lambda s: s.fillna(value, limit = limit), axis)
+    def __invert__(self):
+        f = self.copy()
+        for c in f._cols: f._c[c] = [core.sym_not(v) for v in f._c[c]]
+        return f
+    def max(self, axis = 0):
+        if axis != 1: raise Unsupported('minipd: DataFrame.max(axis=%r)' % (axis,))
+        out = []
+        for i in range(len(self)):
+            m = self._c[self._cols[0]][i]
+            for c in self._cols[1:]: m = _or(m, self._c[c][i])          # boolean frames only (row-wise any)
+            out.append(m)
+        r = Series(out, Index(self._i._l, self._i.name))
+        r._nonbool = len(out) == 0            # pandas: the row-wise max of an empty boolean frame is an empty *float* Series
+        return r
     def sort_values(self, by, **kw):
         """stable ascending sort by one column (pandas' default quicksort is an insertion sort, hence stable, on the < 16 rows used here)"""
         if kw or not isinstance(by, str): raise Unsupported('minipd: sort_values options')
@@ -418,7 +455,13 @@ class _GroupBy:
 
 def concat(objs, axis = 0, **kw):
     objs = list(objs)
-    if axis != 0: raise Unsupported('minipd: concat(axis=1)')
+    if axis == 1:
+        if not objs or not all(isinstance(o, Series) for o in objs): raise Unsupported('minipd: concat(axis=1) of non-Series')
+        first = objs[0]._i
+        if not all(o._i.equals(first) for o in objs): raise Unsupported('minipd: concat(axis=1) of differently indexed series')
+        f = DataFrame(); names = [o.name if o.name is not None else k for k, o in enumerate(objs)]
+        f._cols = Columns(names); f._c = {n: list(o._v) for n, o in zip(names, objs)}; f._i = Index(first._l, first.name); return f
+    if axis != 0: raise Unsupported('minipd: concat(axis=%r)' % (axis,))
     if objs and all(isinstance(o, DataFrame) for o in objs):
         cols = list(objs[0]._cols)
         if any(list(o._cols) != cols for o in objs): raise Unsupported('minipd: concat of frames with different columns')
@@ -449,12 +492,16 @@ class NPX:
         import numpy
         object.__setattr__(self, '_np', numpy)
     def __getattr__(self, k):
-        if k == 'ndarray': return Arr
+        if k == 'ndarray': return (Arr, Arr2)
         if k in ('nan', 'inf', 'float64', 'int64', 'int32', 'int16', 'int8', 'float32', 'float16', 'bool_', 'str_', 'datetime64', 'dtype', 'generic', 'integer', 'floating', 'vectorize'): return getattr(self._np, k)
         raise Unsupported('minipd: np.%s is not modelled' % k)
     def isnan(self, x):
         if isinstance(x, Series): return Series([_isnan(v) for v in x._v], Index(x._i._l))
         if isinstance(x, Arr): return Arr([_isnan(v) for v in x])
+        if isinstance(x, DataFrame):
+            f = x.copy()
+            for c in f._cols: f._c[c] = [_isnan(v) for v in f._c[c]]
+            return f
         if isinstance(x, SymFloat): return mkbool(x.kind == core.NAN)
         if core.is_sym(x): return False
         return self._np.isnan(x)
@@ -554,6 +601,31 @@ def gate():
         try:
             r[t:None]; return False, dict(mismatch = 'pandas accepted a time-of-day label slice')
         except Exception: pass
+    # two-column frames: fills with limit, row masks, label slices, column selection, concat(axis=1)
+    def fsame(m, r):
+        if list(m._cols) != list(r.columns) or len(m) != len(r): return False
+        if [t for t in m._i._l] != [t.to_pydatetime() if hasattr(t, 'to_pydatetime') else t for t in r.index]: return False
+        return all((a == b or (a != a and b != b)) for c in m._cols for a, b in zip(m._c[c], [float(v) for v in r[c].values]))
+    for pat in itertools.product([0, 1], repeat = 6):
+        colsv = dict(a = [NAN if pat[i] else float(i) for i in range(3)], b = [NAN if pat[3 + i] else float(10 + i) for i in range(3)])
+        mf = DataFrame({k: list(v) for k, v in colsv.items()}, index = grid[:3]); rf = rpd.DataFrame(colsv, index = rpd.DatetimeIndex(grid[:3]))
+        for limit in (None, 1):
+            if not fsame(mf.ffill(axis = 0, limit = limit), rf.ffill(axis = 0, limit = limit)) or not fsame(mf.bfill(axis = 0, limit = limit), rf.bfill(axis = 0, limit = limit)): return False, dict(mismatch = 'frame fill %s' % (pat,))
+            if not fsame(mf.fillna(value = 7.0, axis = 0, limit = limit), rf.fillna(value = 7.0, axis = 0, limit = limit)): return False, dict(mismatch = 'frame fillna %s' % (pat,))
+        nn = ~NPX().isnan(mf); rn = ~np.isnan(rf)
+        if [bool(v) for v in nn.max(axis = 1)._v] != [bool(v) for v in rn.max(axis = 1).values]: return False, dict(mismatch = 'frame isnan/max %s' % (pat,))
+        keep = [bool(v) for v in rn.max(axis = 1).values]
+        if not fsame(mf[Arr(keep)], rf[np.array(keep)]): return False, dict(mismatch = 'frame mask')
+        if not fsame(mf[grid[1]:], rf[grid[1]:]) or not fsame(mf.iloc[:0], rf.iloc[:0]): return False, dict(mismatch = 'frame slice')
+        c0 = mf.iloc[:, 1]; r0 = rf.iloc[:, 1]
+        if c0.name != r0.name or not same(c0, r0): return False, dict(mismatch = 'iloc[:, i]')
+        if not fsame(concat([mf.iloc[:, 0], mf.iloc[:, 1]], axis = 1), rpd.concat([rf.iloc[:, 0], rf.iloc[:, 1]], axis = 1)): return False, dict(mismatch = 'concat axis 1')
+        n += 10
+    me = DataFrame(dict(a = [], b = []), index = []); re_ = rpd.DataFrame(dict(a = [], b = []), index = rpd.DatetimeIndex([]), dtype = float)
+    if list(me[Arr([])]._cols) != list(re_[np.array([], dtype = bool)].columns): return False, dict(mismatch = 'empty mask on an empty frame')
+    if list(me[(~NPX().isnan(me)).max(axis = 1).values]._cols) != list(re_[(~np.isnan(re_)).max(axis = 1).values].columns): return False, dict(mismatch = 'row-wise max of an empty frame used as a key')
+    a2 = Arr2([[1.0, NAN], [NAN, 4.0]]); ra2 = np.array([[1.0, NAN], [NAN, 4.0]])
+    if not fsame(DataFrame(a2).ffill(), rpd.DataFrame(ra2).ffill()): return False, dict(mismatch = 'frame from 2-d array')
     mi = Series([1.0, NAN, 3.0]); ri = rpd.Series([1.0, NAN, 3.0])
     for k in range(0, 4):
         a = mi[k:]; b = ri[k:]
